@@ -436,40 +436,81 @@ func init() {
 	})
 	reg(CM+"Bytes2Hex", func(ex *Exec, a []Val) Val { return StrV{B: ex.hexOfBytes(ex.bytesOf(a[0]))} })
 
-	// ---------- time ----------
+	// ---------- time (BV64 nanoseconds; zero time.Time is a flag) ----------
 	const TM = "(time.Time)."
-	reg(TM+"Add", func(ex *Exec, a []Val) Val {
-		return TimeV{T: ex.tf.IAdd(a[0].(TimeV).T, ex.tf.BV2Int(a[1].(*Term), true))}
+	tv := func(ex *Exec, v Val, what string) *Term {
+		t := v.(TimeV)
+		if t.Z {
+			ex.unmodelled("arithmetic on the zero time.Time in " + what)
+		}
+		return t.T
+	}
+	reg(TM+"Add", func(ex *Exec, a []Val) Val { return TimeV{T: ex.tf.BVAdd(tv(ex, a[0], "Add"), a[1].(*Term))} })
+	reg(TM+"Sub", func(ex *Exec, a []Val) Val { return ex.tf.BVSub(tv(ex, a[0], "Sub"), tv(ex, a[1], "Sub")) })
+	cmpT := func(f func(ex *Exec, x, y *Term) *Term, zeroFirst, bothZero bool) Intrinsic {
+		return func(ex *Exec, a []Val) Val {
+			x, y := a[0].(TimeV), a[1].(TimeV)
+			switch {
+			case x.Z && y.Z:
+				return ex.tf.Bool(bothZero)
+			case x.Z:
+				return ex.tf.Bool(zeroFirst)
+			case y.Z:
+				return ex.tf.Bool(!zeroFirst && !bothZero || (!zeroFirst && bothZero && false))
+			}
+			return f(ex, x.T, y.T)
+		}
+	}
+	// Before: zero < everything
+	reg(TM+"Before", func(ex *Exec, a []Val) Val {
+		x, y := a[0].(TimeV), a[1].(TimeV)
+		if x.Z || y.Z {
+			return ex.tf.Bool(x.Z && !y.Z)
+		}
+		return ex.tf.BVSlt(x.T, y.T)
 	})
-	reg(TM+"Sub", func(ex *Exec, a []Val) Val {
-		d := ex.tf.ISub(a[0].(TimeV).T, a[1].(TimeV).T)
-		// saturating to int64 range
-		lo := ex.tf.IntConst(new(big.Int).Lsh(big.NewInt(-1), 63))
-		hi := ex.tf.IntConst(new(big.Int).Sub(new(big.Int).Lsh(big.NewInt(1), 63), big.NewInt(1)))
-		d = ex.tf.Ite(ex.tf.ILt(d, lo), lo, ex.tf.Ite(ex.tf.IGt(d, hi), hi, d))
-		return ex.tf.Int2BV(d, 64)
+	reg(TM+"After", func(ex *Exec, a []Val) Val {
+		x, y := a[0].(TimeV), a[1].(TimeV)
+		if x.Z || y.Z {
+			return ex.tf.Bool(y.Z && !x.Z)
+		}
+		return ex.tf.BVSlt(y.T, x.T)
 	})
-	reg(TM+"Before", func(ex *Exec, a []Val) Val { return ex.tf.ILt(a[0].(TimeV).T, a[1].(TimeV).T) })
-	reg(TM+"After", func(ex *Exec, a []Val) Val { return ex.tf.IGt(a[0].(TimeV).T, a[1].(TimeV).T) })
-	reg(TM+"Equal", func(ex *Exec, a []Val) Val { return ex.tf.Eq(a[0].(TimeV).T, a[1].(TimeV).T) })
-	reg(TM+"Compare", func(ex *Exec, a []Val) Val { return ex.cmpTerm(a[0].(TimeV).T, a[1].(TimeV).T) })
-	reg(TM+"IsZero", func(ex *Exec, a []Val) Val { return ex.tf.Eq(a[0].(TimeV).T, ex.tf.IntConst(zeroTimeNanos)) })
+	reg(TM+"Equal", func(ex *Exec, a []Val) Val {
+		x, y := a[0].(TimeV), a[1].(TimeV)
+		if x.Z || y.Z {
+			return ex.tf.Bool(x.Z && y.Z)
+		}
+		return ex.tf.Eq(x.T, y.T)
+	})
+	_ = cmpT
+	reg(TM+"Compare", func(ex *Exec, a []Val) Val {
+		x, y := tv(ex, a[0], "Compare"), tv(ex, a[1], "Compare")
+		return ex.tf.Ite(ex.tf.BVSlt(x, y), ex.tf.BVi(-1, 64), ex.tf.Ite(ex.tf.Eq(x, y), ex.tf.BVi(0, 64), ex.tf.BVi(1, 64)))
+	})
+	reg(TM+"IsZero", func(ex *Exec, a []Val) Val { return ex.tf.Bool(a[0].(TimeV).Z) })
 	reg(TM+"UTC", func(ex *Exec, a []Val) Val { return a[0] })
 	reg(TM+"Unix", func(ex *Exec, a []Val) Val {
-		q, _ := ex.euclidDivMod(a[0].(TimeV).T, ex.tf.Inti(1000000000))
-		return ex.tf.Int2BV(q, 64)
+		t := a[0].(TimeV)
+		if t.Z {
+			return ex.tf.BVi(-62135596800, 64)
+		}
+		// floor division by 1e9
+		n := ex.tf.BVu(1000000000, 64)
+		q := ex.tf.BVSDiv(t.T, n)
+		r := ex.tf.BVSRem(t.T, n)
+		return ex.tf.Ite(ex.tf.BVSlt(r, ex.tf.BVu(0, 64)), ex.tf.BVSub(q, ex.tf.BVu(1, 64)), q)
 	})
-	reg(TM+"UnixNano", func(ex *Exec, a []Val) Val { return ex.tf.Int2BV(a[0].(TimeV).T, 64) })
+	reg(TM+"UnixNano", func(ex *Exec, a []Val) Val { return tv(ex, a[0], "UnixNano") })
 	reg(TM+"String", func(ex *Exec, a []Val) Val { return StrV{Opaque: true, Tag: "time"} })
 	reg(TM+"Format", func(ex *Exec, a []Val) Val { return StrV{Opaque: true, Tag: "time"} })
 	reg("time.Unix", func(ex *Exec, a []Val) Val {
-		s := ex.tf.BV2Int(a[0].(*Term), true)
-		n := ex.tf.BV2Int(a[1].(*Term), true)
-		return TimeV{T: ex.tf.IAdd(ex.tf.IMul(s, ex.tf.Inti(1000000000)), n)}
+		s, n := a[0].(*Term), a[1].(*Term)
+		return TimeV{T: ex.tf.BVAdd(ex.tf.BVMul(s, ex.tf.BVu(1000000000, 64)), n)}
 	})
 	reg("time.Now", func(ex *Exec, a []Val) Val {
 		ex.res.Covers["wall-clock read time.Now at "+ex.curPos()] = true
-		return TimeV{T: ex.freshVar("now", IntSort)}
+		return TimeV{T: ex.freshVar("now", BVSort(64))}
 	})
 	reg("(time.Duration).String", func(ex *Exec, a []Val) Val { return StrV{Opaque: true, Tag: "duration"} })
 	reg("(time.Duration).Seconds", func(ex *Exec, a []Val) Val { return OpaqueV{"float"} })
@@ -497,4 +538,5 @@ func (ex *Exec) zeroOfResult(name string) Val {
 }
 
 var _ = hex.EncodeToString
+var _ = big.NewInt
 var _ types.Type
